@@ -287,6 +287,7 @@ enum Entry {
     Slice,
     Reader,
     Value,
+    CApi,
 }
 
 impl Entry {
@@ -296,6 +297,7 @@ impl Entry {
             Entry::Slice => "slice",
             Entry::Reader => "reader",
             Entry::Value => "value",
+            Entry::CApi => "capi",
         }
     }
     fn parse(s: &str) -> Option<Entry> {
@@ -304,6 +306,7 @@ impl Entry {
             "slice" => Entry::Slice,
             "reader" => Entry::Reader,
             "value" => Entry::Value,
+            "capi" => Entry::CApi,
             _ => return None,
         })
     }
@@ -329,6 +332,21 @@ fn deser<'a>(ctx: &mut ExecutionContext<'a>, entry: Entry, doc: &'a [u8]) -> Res
         Entry::Value => {
             let v: serde_json::Value = serde_json::from_slice(doc).map_err(|_| ())?;
             ctx.deserialize(v).map_err(|_| ())
+        }
+        Entry::CApi => {
+            // `wirefilter_deserialize_json_to_execution_context` as a C caller uses it: the
+            // document sits in the caller's own buffer, which is overwritten as soon as the
+            // call has returned (and then abandoned, so that a context still pointing into it
+            // reads the scribble rather than freed memory)
+            let sch = ctx.scheme().clone();
+            let inner = std::mem::replace(ctx, ExecutionContext::new(&sch));
+            let mut c = wirefilter_ffi::ExecutionContext::from(inner);
+            let mut buf: Vec<u8> = doc.to_vec();
+            let ok = wirefilter_ffi::wirefilter_deserialize_json_to_execution_context(&mut c, buf.as_ptr(), buf.len());
+            buf.iter_mut().for_each(|b| *b = b'x');
+            std::mem::forget(buf);
+            *ctx = c.into();
+            if ok { Ok(()) } else { Err(()) }
         }
     }
 }
@@ -1401,7 +1419,7 @@ impl Emit<'_> {
         let lists_tag = format!("rt.lists.{}", case.lists.len());
         let mut json: Option<String> = None;
         let mut filters_run = 0;
-        for entry in [Entry::Str, Entry::Slice, Entry::Reader, Entry::Value] {
+        for entry in [Entry::Str, Entry::Slice, Entry::Reader, Entry::Value, Entry::CApi] {
             let f6 = entry == Entry::Value && !case.lists.is_empty();
             if f6 && !value_with_lists {
                 continue;
